@@ -14,7 +14,8 @@ class Prop:
     vo_props = ["theories/Props/C03.vo"]
     k_names = ["handshake(device co-simulated against ref == Noise.Model.dev_step against Noise.Paper parties)",
                "wire(device-emitted initiation/response bytes decode with Wire.Codec to the fields ref parsed)"]
-    rule = ("handshake scenarios from one PRNG, 23 templates (device forced under load: its cookie reply must open at the initiator, "
+    rule = ("handshake scenarios from one PRNG, 24 templates (Down/Up right after the device itself sent a handshake message, the "
+            "RekeyTimeout throttle left as the device set it; device forced under load: its cookie reply must open at the initiator, "
             "retry with MAC2 completes; every device initiation's timestamp decoded as TAI64N of now and monotone per peer; private-key change scheduled inside the handshake worker between "
             "ConsumeMessageInitiation and SendHandshakeResponse via the device.Logger callback; UAPI update_only for an unknown key, then restart and an initiation "
             "by that key; cookie expiry: authentic cookie reply, 50 s / 121 s pass via "
@@ -50,7 +51,7 @@ class Prop:
         return meta, files
 
     def generate(self, seed, tier, mult):
-        n = (92 if tier == "quick" else 966) * mult
+        n = (96 if tier == "quick" else 960) * mult
         shards = 8 if tier == "quick" else 32
         exe = vlib.build_go("c03")
         rc, o = vlib.sh([exe, "-seed", str(seed), "-n", str(n), "-shards", str(shards), "-out", self.dir,
@@ -133,7 +134,7 @@ class Prop:
         if op == "rdata":
             return "data-accepted" if has(5) else "data-refused(mirrored-keys)"
         if op in ("tun", "kick"):
-            return "device-sends" if (has(1) or has(4)) else "device-silent"
+            return "device-sends" if (has(1) or has(4)) else "no-initiation-although-no-keys(initiator-role)"
         return op or "?"
 
     @staticmethod
